@@ -40,6 +40,9 @@ def scenarios(tier):
         for i, m in enumerate(models.enumerate_models(limit=150)[::3]):
             sc.append(hc.scen(f"e{i}", m, T=2, ck=2, p=0, j=1))
     else:
+        sc.append(hc.scen("trickle0", T(2, [2, 1], [2, 1, 2], P=5, K=100, H=24), T=2, ck=1, p=2, j=8, deadline=1500))
+        sc.append(hc.scen("trickle1", T(3, [1, 2, 1], [2, 1, 7], P=5, K=100, H=12), T=3, ck=1, p=2, j=8, deadline=1500))
+        sc.append(hc.scen("trickle2", T(2, [5, 1], [1, 5, 2], P=5, K=100, M=1, H=16), T=2, ck=2, p=1, j=4, deadline=1500))
         cfgs = [(1, 1, 0), (2, 1, 0), (2, 2, 0), (2, 3, 1), (3, 0, 0), (3, 2, 1)]
         for i, m in enumerate(CORE_MODELS):
             for (t, ck, gp) in cfgs:
@@ -60,6 +63,9 @@ def run(tier, seed):
     d = vc.fresh_dir(PID)
     binary = hc.build(d)
     reps, m, viol = vc.rsched_scenarios(PID, "h_run", binary, scenarios(tier), d, workers=8)
+    # the step function alone, under every delivery order and every legal GVT announcement
+    preps, pm, pviol = hc.proc_part(PID, d, tier)
+    viol += pviol
     if not viol:
         for k in ("rollbacks", "anti_messages", "silent_executions", "end_state_compared", "ended_by_predicate", "fossil_releases"):
             if hc.counters_nz(m, k) == 0:
@@ -73,8 +79,9 @@ def run(tier, seed):
                            "sequential state at the first-true point (or final state on exhaustion), every committed event and state hash = "
                            "sequential, state after every rollback = recorded forward state; non-trivial = execution with >= 1 rollback; "
                            "states = distinct choice-tree nodes, transitions = scheduling steps")
+    hc.add_proc(cov, pm, preps)
     vc.write_evidence(PID, tier, "model_checking", cov,
-                      ["interleavings at call granularity (process_msg / mpi_remote_msg_handle / gvt_phase_run boundaries); in-call "
+                      [hc.PROC_ASSUMPTION, "interleavings at call granularity (process_msg / mpi_remote_msg_handle / gvt_phase_run boundaries); in-call "
                        "interleavings are covered by the fine-grained harnesses of C04, C06, C15, C17",
                        "models of the vmodel grammar, <= 4 LPs, <= 3 threads; sequentially consistent memory"],
                       time.time() - t0, n, seed)
@@ -83,4 +90,6 @@ def run(tier, seed):
 
 def replay(path):
     d = vc.fresh_dir(PID + "_replay")
+    if hc.is_proc_replay(path):
+        return vc.rsched_replay(hc.build_proc(d), path)
     return vc.rsched_replay(hc.build(d), path)
